@@ -38,6 +38,10 @@ type op struct {
 	Split  []int  `json:"split,omitempty"`  // absorb: issue as several calls, cut after these block counts
 	Lanes  int    `json:"lanes,omitempty"`  // squeeze: number of lanes requested (<= n)
 	Bad    string `json:"bad,omitempty"`    // bad-*: "size0", "size65", "length"
+	// squeeze: what the caller passes as dst: 0 a fresh slice of nil entries, 1 the same slice it passed
+	// to this instance's previous squeezes (entries still holding the earlier results, which the caller
+	// keeps), 2 entries that are adjacent 243-trit windows of one large buffer
+	Dst int `json:"dst,omitempty"`
 }
 
 type history struct {
@@ -66,6 +70,15 @@ type inst struct {
 	c     *curl.Curl
 	n     int
 	model []*ref.Sponge
+	dst   []trinary.Trits // the caller's long-lived dst slice (Dst mode 1)
+	held  []heldOut       // results of earlier squeezes the caller still holds
+}
+
+type heldOut struct {
+	step int
+	lane int
+	got  trinary.Trits
+	want []int8
 }
 
 func (in *inst) cloneModel() []*ref.Sponge {
@@ -97,7 +110,7 @@ func compareState(where string, in *inst) error {
 
 func checkHistory(hist history) (h.Info, error) {
 	var insts []*inst
-	var absorbed, squeezed, multiLane, split, multiSqueeze, cloned, resetReuse, rejected bool
+	var absorbed, squeezed, multiLane, split, multiSqueeze, cloned, resetReuse, rejected, dstReuse bool
 	for step, o := range hist.Ops {
 		where := fmt.Sprintf("step %d (%s inst %d)", step, o.Kind, o.Inst)
 		if o.Kind == "new" {
@@ -170,6 +183,18 @@ func checkHistory(hist history) (h.Info, error) {
 				return h.Info{}, fmt.Errorf("PRECONDITION: lanes")
 			}
 			dst := make([]trinary.Trits, o.Lanes)
+			switch o.Dst {
+			case 1:
+				if in.dst == nil {
+					in.dst = make([]trinary.Trits, 64)
+				}
+				dst = in.dst[:o.Lanes]
+			case 2:
+				big := make(trinary.Trits, (o.Lanes+4)*ref.Rate)
+				for j := range dst {
+					dst[j] = big[j*ref.Rate : (j+1)*ref.Rate]
+				}
+			}
 			if err := in.c.Squeeze(dst, o.Blocks*ref.Rate); err != nil {
 				return h.Info{}, fmt.Errorf("%s: Squeeze: %v", where, err)
 			}
@@ -184,9 +209,23 @@ func checkHistory(hist history) (h.Info, error) {
 				}
 				for i := range want {
 					if dst[j][i] != want[i] {
-						return h.Info{}, fmt.Errorf("%s: lane %d of %d, output trit %d = %d, the Curl-P-81 sponge on lane %d's input alone gives %d", where, j, in.n, i, dst[j][i], j, want[i])
+						return h.Info{}, fmt.Errorf("%s: lane %d of %d, output trit %d = %d, the Curl-P-81 sponge on lane %d's input alone gives %d (dst mode %d)", where, j, in.n, i, dst[j][i], j, want[i], o.Dst)
 					}
 				}
+				if o.Dst == 1 && o.Blocks > 0 && (j == 0 || j == o.Lanes-1) {
+					in.held = append(in.held, heldOut{step, j, dst[j], want})
+				}
+			}
+			// results of earlier squeezes that the caller still holds are untouched by this one
+			for _, ho := range in.held {
+				for i := range ho.want {
+					if ho.got[i] != ho.want[i] {
+						return h.Info{}, fmt.Errorf("%s: the slice returned for lane %d by the squeeze of step %d (the caller passed the same dst slice again and kept the earlier results) now has trit %d = %d, it was %d", where, ho.lane, ho.step, i, ho.got[i], ho.want[i])
+					}
+				}
+			}
+			if o.Dst != 0 && o.Blocks > 0 {
+				dstReuse = true
 			}
 			// the returned lane slices are independent: extending one in place must not change another
 			if o.Lanes >= 2 && o.Blocks > 0 {
@@ -273,6 +312,8 @@ func checkHistory(hist history) (h.Info, error) {
 	}
 	info := h.Info{Class: "history/plain", NT: absorbed && squeezed && multiLane}
 	switch {
+	case dstReuse:
+		info.Class = "history/caller-supplied-dst"
 	case rejected:
 		info.Class = "history/rejected-call"
 	case cloned && absorbed:
@@ -348,7 +389,7 @@ func genHistory(t *rapid.T) history {
 			if !rapid.Bool().Draw(t, "alllanes") {
 				lanes = rapid.IntRange(1, st[i].n).Draw(t, "lanes")
 			}
-			ops = append(ops, op{Kind: "squeeze", Inst: i, Blocks: blocks, Lanes: lanes})
+			ops = append(ops, op{Kind: "squeeze", Inst: i, Blocks: blocks, Lanes: lanes, Dst: h.Pick(t, "dst", 5, 2, 1)})
 			if blocks > 0 { // a 0-block squeeze does not change the direction
 				st[i].squeezing = true
 			}
@@ -379,8 +420,95 @@ func TestHistories(t *testing.T) {
 	h.Run(t, h.Sub[history]{
 		Prop: "C06", Name: "histories-" + buildVariant, N: 1600,
 		Gen: genHistory, Check: checkHistory,
-		Require: []string{"history/clone", "history/reset-reuse", "history/rejected-call", "history/split-absorb", "history/multi-block-squeeze"},
-		Rule:    "histories of 2..12 calls over up to 4 instances (batch sizes weighted to 1, 2, 63, 64): Absorb of 0..3 blocks (equal lanes / single-trit differences / all lanes different, optionally split across calls), Squeeze of 0..3 blocks into 1..n lanes, Clone, Reset, rejected calls (batch size 0 / 65, length not a multiple of 243); after every step the bit-sliced state of every instance decoded lane by lane must equal n independent scalar Curl-P-81 sponges and squeezed output = the lane's own sponge; non-trivial = >= 1 absorbed block, >= 1 squeezed block and >= 2 different lanes; distinct by history",
+		Require: []string{"history/clone", "history/reset-reuse", "history/rejected-call", "history/split-absorb", "history/multi-block-squeeze", "history/caller-supplied-dst"},
+		Rule:    "histories of 2..12 calls over up to 4 instances (batch sizes weighted to 1, 2, 63, 64): Absorb of 0..3 blocks (equal lanes / single-trit differences / all lanes different, optionally split across calls), Squeeze of 0..3 blocks into 1..n lanes (dst: fresh, the caller's long-lived slice still holding earlier results that must stay intact, or adjacent windows of one buffer), Clone, Reset, rejected calls (batch size 0 / 65, length not a multiple of 243); after every step the bit-sliced state of every instance decoded lane by lane must equal n independent scalar Curl-P-81 sponges and squeezed output = the lane's own sponge; non-trivial = >= 1 absorbed block, >= 1 squeezed block and >= 2 different lanes; distinct by history",
+	})
+}
+
+// ---- concurrent use of independent instances ----
+
+type job struct {
+	N       int    `json:"n"`
+	Blocks  int    `json:"blocks"`
+	Mode    int    `json:"mode"`
+	Base    []int8 `json:"base"`
+	Squeeze int    `json:"squeeze"`
+}
+
+type concCase struct {
+	Jobs  []job `json:"jobs"`
+	Iters int   `json:"iters"`
+}
+
+func checkConcurrent(c concCase) (h.Info, error) {
+	info := h.Info{Class: fmt.Sprintf("goroutines=%d", len(c.Jobs)), NT: len(c.Jobs) > 1}
+	srcs := make([][]trinary.Trits, len(c.Jobs))
+	wants := make([][][]int8, len(c.Jobs))
+	for g, jb := range c.Jobs { // expectations from the scalar model, sequentially, beforehand
+		if jb.N < 1 || jb.N > 64 || len(jb.Base) != jb.Blocks*ref.Rate || jb.Squeeze < 1 {
+			return info, fmt.Errorf("PRECONDITION: job")
+		}
+		for j := 0; j < jb.N; j++ {
+			in := laneInput(jb.Base, jb.Mode, j)
+			srcs[g] = append(srcs[g], in)
+			sp := &ref.Sponge{}
+			sp.Absorb(in)
+			wants[g] = append(wants[g], sp.Squeeze(jb.Squeeze*ref.Rate))
+		}
+	}
+	err := h.Parallel(len(c.Jobs), func(g int) error {
+		jb := c.Jobs[g]
+		proto := curl.NewCurlP81()
+		for it := 0; it < c.Iters; it++ {
+			cu := proto
+			if it%2 == 1 {
+				cu = proto.Clone() // own instances: a fresh one, or a clone of this goroutine's pristine prototype
+			} else {
+				cu = curl.NewCurlP81()
+			}
+			if err := cu.Absorb(srcs[g], jb.Blocks*ref.Rate); err != nil {
+				return fmt.Errorf("goroutine %d: Absorb: %v", g, err)
+			}
+			dst := make([]trinary.Trits, jb.N)
+			if err := cu.Squeeze(dst, jb.Squeeze*ref.Rate); err != nil {
+				return fmt.Errorf("goroutine %d: Squeeze: %v", g, err)
+			}
+			for j := range dst {
+				for i := range wants[g][j] {
+					if dst[j][i] != wants[g][j][i] {
+						return fmt.Errorf("goroutine %d of %d (each with its own Curl instances), iteration %d: lane %d of %d, output trit %d = %d, the scalar Curl-P-81 sponge gives %d", g, len(c.Jobs), it, j, jb.N, i, dst[j][i], wants[g][j][i])
+					}
+				}
+			}
+		}
+		return nil
+	})
+	return info, err
+}
+
+func TestConcurrent(t *testing.T) {
+	h.Run(t, h.Sub[concCase]{
+		Prop: "C06", Name: "concurrent-instances-" + buildVariant, N: 64,
+		Gen: func(t *rapid.T) concCase {
+			c := concCase{Iters: 150}
+			for i := h.OneOf(t, "g", 2, 4, 8); i > 0; i-- {
+				jb := job{N: h.OneOf(t, "n", 1, 2, 8, 64), Blocks: rapid.IntRange(1, 3).Draw(t, "b"), Mode: rapid.IntRange(0, 2).Draw(t, "mode"), Squeeze: rapid.IntRange(1, 2).Draw(t, "s")}
+				jb.Base = make([]int8, jb.Blocks*ref.Rate)
+				seed := rapid.IntRange(0, 1<<30).Draw(t, "seed")
+				for x := range jb.Base {
+					seed = (seed*1103515245 + 12345) & 0x7fffffff
+					jb.Base[x] = int8(seed>>16)%3 - 1
+					if jb.Base[x] < -1 {
+						jb.Base[x] += 3
+					}
+				}
+				c.Jobs = append(c.Jobs, jb)
+			}
+			return c
+		},
+		Check:   checkConcurrent,
+		Require: []string{"goroutines=2", "goroutines=8"},
+		Rule:    "schedules: 2..8 goroutines released together, each hashing its own input with its own instances (fresh or cloned; 1..64 lanes, 1..3 absorbed and 1..2 squeezed blocks) 150 times; every lane = the scalar Curl-P-81 sponge computed beforehand; all non-trivial",
 	})
 }
 
